@@ -188,6 +188,8 @@ func constBool(v ssa.Value) (bool, bool) {
 
 // getterField: if call is a static call of a method that returns a field of its
 // receiver (a pure getter), the field name and the receiver value.
+var getterCache = map[*ssa.Function]string{}
+
 func getterField(c *Ctx, v ssa.Value) (recv ssa.Value, field string, ok bool) {
 	switch x := v.(type) {
 	case *ssa.Call:
@@ -195,21 +197,26 @@ func getterField(c *Ctx, v ssa.Value) (recv ssa.Value, field string, ok bool) {
 		if callee == nil || callee.Signature.Recv() == nil || len(x.Common().Args) != 1 {
 			return nil, "", false
 		}
-		ef := c.eff.Of(callee)
-		// a pure getter has one block: load field, return
-		if len(callee.Blocks) != 1 {
-			return nil, "", false
-		}
-		for _, ins := range callee.Blocks[0].Instrs {
-			if ret, isRet := ins.(*ssa.Return); isRet && len(ret.Results) == 1 {
-				if ld, isLd := ret.Results[0].(*ssa.UnOp); isLd && ld.Op == token.MUL {
-					if fa, isFA := ld.X.(*ssa.FieldAddr); isFA && fa.X == ssa.Value(callee.Params[0]) {
-						_ = ef
-						return x.Common().Args[0], fieldKeyOf(fa), true
+		f, cached := getterCache[callee]
+		if !cached {
+			// a pure getter has one block: load field, return
+			if len(callee.Blocks) == 1 {
+				for _, ins := range callee.Blocks[0].Instrs {
+					if ret, isRet := ins.(*ssa.Return); isRet && len(ret.Results) == 1 {
+						if ld, isLd := ret.Results[0].(*ssa.UnOp); isLd && ld.Op == token.MUL {
+							if fa, isFA := ld.X.(*ssa.FieldAddr); isFA && fa.X == ssa.Value(callee.Params[0]) {
+								f = fieldKeyOf(fa)
+							}
+						}
 					}
 				}
 			}
+			getterCache[callee] = f
 		}
+		if f == "" {
+			return nil, "", false
+		}
+		return x.Common().Args[0], f, true
 	case *ssa.UnOp:
 		if x.Op == token.MUL {
 			if fa, isFA := x.X.(*ssa.FieldAddr); isFA {
